@@ -221,6 +221,41 @@ pub fn scalar_group<G: CurveGroup>(t: &mut Tally, name: &str, rng: &mut Rng) whe
 }
 
 // ------------------------------------------------------------------------------------------------ C12 on shipped curves
+/// small prime factors (< 2^20) of the cofactor, with multiplicity folded: (l, l^e) for every prime l < 2^20 dividing h
+fn small_prime_powers(h: &BigUint) -> Vec<(u32, BigUint)> {
+    let mut out = vec![];
+    let mut m = h.clone();
+    let mut l = 2u32;
+    while l < (1 << 20) && m > BigUint::one() {
+        if (&m % l).is_zero() {
+            let mut pe = BigUint::one();
+            while (&m % l).is_zero() { m /= l; pe *= l; }
+            out.push((l, pe));
+        }
+        l += if l == 2 { 1 } else { 2 };
+    }
+    out
+}
+
+/// from a point T of the cofactor torsion (T = r * P): for every small prime l | h the points of l-power order obtained from
+/// (h / l^e) * T by repeated multiplication by l, down to order exactly l.  These are the points on which coordinate-only or
+/// eigenvalue-only fast subgroup tests are most likely to err (e.g. the order-3 points (0, +-2) of BLS12-381 G1).
+fn small_order_points<G: CurveGroup>(tors: &[G], h: &BigUint) -> Vec<G> {
+    let mut out = vec![];
+    for (l, pe) in small_prime_powers(h) {
+        let m = h / &pe;
+        for t0 in tors {
+            let mut u = naive(t0, &m);
+            let mut guard = 0;
+            while !u.is_zero() && guard < 80 {
+                out.push(u);
+                u = naive(&u, &BigUint::from(l));
+                guard += 1;
+            }
+        }
+    }
+    out
+}
 pub fn sw_subgroup<C: SWCurveConfig>(t: &mut Tally, name: &str, rng: &mut Rng) {
     let r = modulus::<C::ScalarField>();
     let h = limbs_to_big(C::COFACTOR);
@@ -232,6 +267,11 @@ pub fn sw_subgroup<C: SWCurveConfig>(t: &mut Tally, name: &str, rng: &mut Rng) {
     pts.extend(small.iter().cloned());
     pts.extend(small.iter().map(|s| (s.into_group() + g).into_affine()));
     pts.extend(sub);
+    // points of small prime-power order, alone and shifted by the generator
+    let tors: Vec<sw::Projective<C>> = small.iter().map(|s| s.into_group()).collect();
+    let lows = small_order_points(&tors, &h);
+    pts.extend(lows.iter().map(|u| u.into_affine()));
+    pts.extend(lows.iter().map(|u| (*u + g).into_affine()));
     pts.push(C::GENERATOR);
     pts.push(sw::Affine::<C>::identity());
     let mut cleared = vec![];
@@ -277,6 +317,13 @@ pub fn te_subgroup<C: TECurveConfig>(t: &mut Tally, name: &str, rng: &mut Rng) {
     pts.extend(small.iter().cloned());
     pts.extend(small.iter().filter_map(|s| defined(&|| (s.into_group() + g).into_affine())));
     pts.extend(sub);
+    // points of small prime-power order (2, 4, 8 for the usual Edwards cofactors), alone and shifted by the generator
+    if complete {
+        let tors: Vec<te::Projective<C>> = small.iter().map(|s| s.into_group()).collect();
+        let lows = small_order_points(&tors, &h);
+        pts.extend(lows.iter().map(|u| u.into_affine()));
+        pts.extend(lows.iter().map(|u| (*u + g).into_affine()));
+    }
     pts.push(C::GENERATOR);
     pts.push(te::Affine::<C>::zero());
     let mut cleared = vec![];
@@ -307,6 +354,42 @@ pub fn te_subgroup<C: TECurveConfig>(t: &mut Tally, name: &str, rng: &mut Rng) {
     }
 }
 
+// ------------------------------------------------------------------------------------------------ C05 on shipped curves
+/// multi-limb scalar fields (bit sizes that are / are not multiples of 64): every msm entry point against the naive sum, for
+/// lengths on both sides of the window-size switches, with full-width seeded scalars and limb-boundary scalars
+pub fn msm_group<G: CurveGroup + ark_ec::scalar_mul::variable_base::VariableBaseMSM>(t: &mut Tally, name: &str, rng: &mut Rng) where G::ScalarField: PrimeField {
+    let r = modulus::<G::ScalarField>();
+    let nl = big_to_limbs(&r).len();
+    let g = G::generator();
+    // a pool of subgroup points: small multiples and a few seeded ones
+    let mut pool: Vec<G> = vec![G::zero(), g];
+    for k in 2..8u32 { pool.push(naive(&g, &BigUint::from(k))); }
+    for _ in 0..4 { let k: BigUint = limbs_to_big(&(0..nl).map(|_| rng.next()).collect::<Vec<u64>>()) % &r; pool.push(naive(&g, &k)); }
+    let pool_aff = G::batch_convert_to_mul_base(&pool);
+    let mut edge: Vec<BigUint> = vec![BigUint::from(0u8), BigUint::one(), BigUint::from(2u8), &r - 1u8, &r - 2u8, &r >> 1, (&r >> 1) + 1u8];
+    for l in 1..nl { for d in [0u8, 1] { edge.push(((BigUint::one() << (64 * l)) - d) % &r); edge.push(((BigUint::one() << (64 * l - 1)) + d) % &r); } }
+    for b in 0..8u32 { let top = r.bits() as u32 - 1; if top > b { edge.push((BigUint::one() << (top - b)) % &r); edge.push(((BigUint::one() << (top - b)) - 1u8) % &r); } }
+    let to_fr = |k: &BigUint| G::ScalarField::from_le_bytes_mod_order(&k.to_bytes_le());
+    for len in [0usize, 1, 2, 3, 5, 31, 32, 33, 129, 257] {
+        for round in 0..2 {
+            let idx: Vec<usize> = (0..len).map(|i| if round == 1 && i % 5 == 0 { i % 2 } else { (rng.next() as usize) % pool.len() }).collect();
+            let bases: Vec<G::MulBase> = idx.iter().map(|i| pool_aff[*i]).collect();
+            let ks: Vec<BigUint> = (0..len).map(|i| if round == 1 { edge[(i * 7 + len) % edge.len()].clone() } else { limbs_to_big(&(0..nl).map(|_| rng.next()).collect::<Vec<u64>>()) % &r }).collect();
+            let scalars: Vec<G::ScalarField> = ks.iter().map(|k| to_fr(k)).collect();
+            let mut e = G::zero();
+            for (i, k) in idx.iter().zip(&ks) { e += naive(&pool[*i], k); }
+            t.check(G::msm(&bases, &scalars) == Ok(e), || format!("{name}: msm of length {len} != sum k_i P_i ({})", if round == 1 { "limb-boundary scalars" } else { "seeded full-width scalars" }));
+            t.check(G::msm_unchecked(&bases, &scalars) == e, || format!("{name}: msm_unchecked of length {len} != sum k_i P_i"));
+            let bigs: Vec<_> = scalars.iter().map(|x| x.into_bigint()).collect();
+            t.check(G::msm_bigint(&bases, &bigs) == e, || format!("{name}: msm_bigint of length {len} != sum k_i P_i"));
+            t.check(G::msm_chunks(&bases.as_slice(), &scalars.as_slice()) == e, || format!("{name}: msm_chunks of length {len} != sum k_i P_i"));
+            if len >= 2 {
+                t.check(G::msm(&bases[..len - 1], &scalars) == Err(len - 1), || format!("{name}: msm length mismatch not reported (len {len})"));
+            }
+        }
+    }
+}
+
 /// one configuration's panic must not hide the others
 pub fn guard(t: &mut Tally, name: &str, rng: &mut Rng, f: fn(&mut Tally, &str, &mut Rng)) {
     let r = std::panic::catch_unwind(std::panic::AssertUnwindSafe(|| f(t, name, rng)));
@@ -322,7 +405,13 @@ macro_rules! inventory {
         pub fn consistency(t: &mut Tally, rng: &mut Rng) { $( inventory!(@cons $kind $path, $name, t, rng); )* }
         pub fn scalar_paths(t: &mut Tally, rng: &mut Rng) { $( inventory!(@scal $kind $path, $name, t, rng); )* }
         pub fn subgroup(t: &mut Tally, rng: &mut Rng) { $( inventory!(@sub $kind $path, $name, t, rng); )* }
+        pub fn msm(t: &mut Tally, rng: &mut Rng) { $( inventory!(@msm $kind $path, $name, t, rng); )* }
     };
+    (@msm sw $path:path, $name:expr, $t:ident, $rng:ident) => { guard($t, $name, $rng, msm_group::<sw::Projective<$path>>); };
+    (@msm te $path:path, $name:expr, $t:ident, $rng:ident) => { guard($t, $name, $rng, msm_group::<te::Projective<$path>>); };
+    (@msm glv $path:path, $name:expr, $t:ident, $rng:ident) => {};
+    (@msm ell2 $path:path, $name:expr, $t:ident, $rng:ident) => {};
+    (@msm swuwb $path:path, $name:expr, $t:ident, $rng:ident) => {};
     (@cons sw $path:path, $name:expr, $t:ident, $rng:ident) => { guard($t, $name, $rng, sw_consistency::<$path>); };
     (@cons te $path:path, $name:expr, $t:ident, $rng:ident) => { guard($t, $name, $rng, te_consistency::<$path>); };
     (@cons glv $path:path, $name:expr, $t:ident, $rng:ident) => { guard($t, $name, $rng, glv_consistency::<$path>); };
